@@ -125,6 +125,9 @@ func calcIndex(indexStr string, segment string, length int, iter Iterator) (int,
 	if err != nil && indexStr != "next" && indexStr != "rand" && indexStr != "last" {
 		return 0, fmt.Errorf("index should be integer or one of [next, rand, last], but got `%s`", indexStr)
 	}
+	if length == 0 {
+		return 0, fmt.Errorf("can't get element `%s` of empty list %s", indexStr, segment)
+	}
 	if indexStr != "next" && indexStr != "rand" && indexStr != "last" {
 		if index >= 0 && index < length {
 			return index, nil
